@@ -18,6 +18,9 @@ CELLS = {
     '$ext': 'Seq(int)',      # external actions (gdb.execute etc.), coded per contract
     '$ext_text': 'Seq(str)',
     '$epoch': 'int',
+    '$input': 'Seq(str)',     # the lines the input stream will deliver (ghost; fixed), '' never occurs in it
+    '$in_pos': 'int',         # how many of them have been read
+    '$n_read': 'int', '$n_fwd': 'int', '$n_unp': 'int', '$n_rej': 'int',     # ghost counters: lines read / messages forwarded to the sink / lines passed through
     '$probe': 'Opt(List(Obj("core.wl.message.Message")))',   # ghost parameter: an arbitrary list object (separation arguments)
     '$controller': 'Obj("frontends.tui.controller.Controller", True)',       # wiring: the controller registered on the connection list / connections
     '$ui_state': 'Obj("core.persistent_ui_state.PersistentUIState", True)',  # wiring: the state object registered on the controller
@@ -67,11 +70,11 @@ def retag_last(world, heap, kind, msg):
     append(world, heap, '$shown_at', mk_int(n - 1))
 
 
-ACCESSORS = {'probe': '$probe', 'controller': '$controller', 'ui_state': '$ui_state', 'shown': '$shown', 'shown_at': '$shown_at', 'out_text': '$out_text', 'out_stream': '$out_stream', 'out_kind': '$out_kind', 'out_msg': '$out_msg',
+ACCESSORS = {'n_read': '$n_read', 'n_fwd': '$n_fwd', 'n_unp': '$n_unp', 'n_rej': '$n_rej', 'input_lines': '$input', 'input_pos': '$in_pos', 'probe': '$probe', 'controller': '$controller', 'ui_state': '$ui_state', 'shown': '$shown', 'shown_at': '$shown_at', 'out_text': '$out_text', 'out_stream': '$out_stream', 'out_kind': '$out_kind', 'out_msg': '$out_msg',
              'ui_trace': '$ui', 'ext_trace': '$ext', 'ext_text': '$ext_text'}
 
 
-GROUPS = {'trace': ['$out_text', '$out_stream', '$out_kind', '$out_msg'], 'shown': ['$shown', '$shown_at'], 'ui': ['$ui'], 'ext': ['$ext', '$ext_text']}
+GROUPS = {'counts': ['$n_read', '$n_fwd', '$n_unp', '$n_rej'], 'input': ['$in_pos'], 'trace': ['$out_text', '$out_stream', '$out_kind', '$out_msg'], 'shown': ['$shown', '$shown_at'], 'ui': ['$ui'], 'ext': ['$ext', '$ext_text']}
 
 
 def havoc_group(world, st, group):
@@ -80,12 +83,18 @@ def havoc_group(world, st, group):
         ty = world.parse_type(CELLS[name])
         cur = st.heap.read_global(name, ty)
         new = fresh(ty, name.strip('$'))
+        if not isinstance(ty, TSeq):
+            st.pc.append(new.t[0] >= cur.t[0])       # counters only advance
+            st.heap.write_global(name, ty, new)
+            continue
         k = z3.Int(fresh_name('k'))
         st.pc.append(new.t[0] >= cur.t[0])
         st.pc.append(z3.ForAll([k], z3.Implies(z3.And(0 <= k, k < cur.t[0]), z3.Select(new.t[1], k) == z3.Select(cur.t[1], k)),
                                patterns=[z3.Select(new.t[1], k)]))
         st.heap.write_global(name, ty, new)
     # all cells of one group have the same length
+    if not isinstance(world.parse_type(CELLS[GROUPS[group][0]]), TSeq):
+        return
     first = st.heap.read_global(GROUPS[group][0], world.parse_type(CELLS[GROUPS[group][0]]))
     for name in GROUPS[group][1:]:
         st.pc.append(st.heap.read_global(name, world.parse_type(CELLS[name])).t[0] == first.t[0])
@@ -117,9 +126,19 @@ def bump(st):
 def wellformed(world, heap):
     """entry assumption: the cells of one trace group have one common, non-negative length"""
     out = []
+    inp = heap.read_global('$input', world.parse_type(CELLS['$input']))
+    k = z3.Int('k_in')
+    out.append(inp.t[0] >= 0)
+    pos = heap.read_global('$in_pos', INT).term
+    out.append(z3.And(0 <= pos, pos <= inp.t[0]))
+    out.append(z3.ForAll([k], z3.Implies(z3.And(0 <= k, k < inp.t[0]), slen(z3.Select(inp.t[1], k)) > 0), patterns=[z3.Select(inp.t[1], k)]))
     for g, names in GROUPS.items():
         first = heap.read_global(names[0], world.parse_type(CELLS[names[0]]))
         out.append(first.t[0] >= 0)
+        if not isinstance(world.parse_type(CELLS[names[0]]), TSeq):
+            for n in names[1:]:
+                out.append(heap.read_global(n, world.parse_type(CELLS[n])).t[0] >= 0)
+            continue
         for n in names[1:]:
             out.append(heap.read_global(n, world.parse_type(CELLS[n])).t[0] == first.t[0])
     return out
